@@ -9,6 +9,8 @@ type verifRandReader struct {
 	calls *int
 }
 
+var verifShortAt int
+
 type verifRandErr struct{}
 
 func (verifRandErr) Error() string { return "verif: random source failed" }
@@ -18,12 +20,26 @@ func (r verifRandReader) Read(p []byte) (int, error) {
 	if verifParam("rand.mayfail", 1) == 1 && verifNondetBool("rand.fail") {
 		return 0, verifRandErr{}
 	}
-	for i := range p {
+	// an io.Reader may return fewer bytes than asked for without an error (one call, chosen among the first
+	// rand.short.maxcall calls, to bound the paths)
+	n := len(p)
+	if verifParam("rand.short", 0) == 1 && *r.calls == 1 {
+		verifShortAt = 1 + verifChoose("rand.short.at", verifParam("rand.short.maxcall", 1))
+	}
+	if verifParam("rand.short", 0) == 1 && *r.calls == verifShortAt && len(p) > 1 {
+		switch verifChoose("rand.short", 3) {
+		case 1:
+			n = 1
+		case 2:
+			n = len(p) / 2
+		}
+	}
+	for i := 0; i < n; i++ {
 		b := verifNondetByte("rand.byte")
 		p[i] = b
 		*r.drawn = append(*r.drawn, b)
 	}
-	return len(p), nil
+	return n, nil
 }
 
 func verifBytesEqual(a, b []byte) bool {
